@@ -325,9 +325,14 @@ class Weaver:
                     if mm2:
                         pos += mm2.end()
                 ins.append((pos, '\n' + text + '\n'))
-            elif re.fullmatch(r'(before|after)\d*', kind):
+            elif re.fullmatch(r'(before|after)\d*\??', kind):
                 lit = arg
                 cnt = body.count(lit)
+                if kind.endswith('?'):
+                    # optional anchor: the hint is dropped when the statement is not there (or not unique)
+                    kind = kind[:-1]
+                    if cnt != 1:
+                        continue
                 mk = re.fullmatch(r'(before|after)(\d+)', kind)
                 if mk:
                     # `//@after2 <literal>`: the 2nd textual occurrence of the anchor
